@@ -331,6 +331,57 @@ def run(ctx):
                 do_interest(ctx, rng, comps, prm, pexp, gen.rand_bytes(rng, max(0, L - 10)), 'var', target=('v', tg), sinfo_tuple=st,
                             placeholder_at=rng.choice([None, 0, 1]))
 
+    # ---- nested-length sweeps: the Name / ForwardingHint / KeyLocator / FinalBlockId lengths cross 253 (and 65536)
+    def name_of_total(total, ncomp):
+        """components whose encoded sizes sum to `total` bytes"""
+        out = []
+        left = total
+        for j in range(ncomp - 1):
+            c = rc.comp(8, gen.rand_bytes(rng, 3))
+            out.append(c)
+            left -= len(c)
+        # last component takes the rest: size = 1 + len(var(L)) + L
+        for L in range(max(0, left - 6), left + 1):
+            c = rc.comp(8, b'n' * L)
+            if len(c) == left:
+                out.append(c)
+                return out
+        return None
+    totals = list(range(205, 262)) + ([65490 + d for d in range(0, 50, 1)] if not ctx.quick else [65500, 65501, 65502, 65503, 65535, 65536])
+    for T_ in totals:
+        for ncomp in (1, 3):
+            comps = name_of_total(T_, ncomp)
+            if comps is None:
+                continue
+            for kind in ('none', 'digest-int', 'var', 'ecdsa256'):
+                if T_ > 60000 and kind not in ('none', 'digest-int'):
+                    continue
+                prm, pexp = pkts.gen_interest_param(rng)
+                for app in ((None, b'', b'p') if kind == 'none' else (b'',)):
+                    do_interest(ctx, rng, comps, prm, pexp, app, kind, placeholder_at=rng.choice([None, None, 0]), target=('name-total', T_))
+                meta, mexp = pkts.gen_meta_info(rng)
+                do_data(ctx, rng, comps, meta, mexp, b'c', kind if kind != 'digest-int' else 'digest', target=('name-total', T_))
+            ctx.event('name-length-sweep')
+    for T_ in range(230, 262):
+        # forwarding hint, key locator and FinalBlockId of that size
+        big = name_of_total(T_, 2)
+        if big is None:
+            continue
+        prm, pexp = pkts.gen_interest_param(rng)
+        prm.forwarding_hint = [big]
+        pexp['fwd_hint'] = [big]
+        do_interest(ctx, rng, gen.simple_name(rng, 1, 2), prm, pexp, rng.choice([None, b'x']), 'none', target=('fwd-hint', T_))
+        signer, sinfo = pkts.make_signer(rng, 'hmac', big)
+        do_data(ctx, rng, gen.simple_name(rng, 1, 2), MetaInfo(), {'has_meta': True, 'content_type': 0, 'freshness': None, 'final_block': None},
+                b'k', 'hmac', sinfo_tuple=(signer, sinfo), target=('key-locator', T_))
+        prm2, pexp2 = pkts.gen_interest_param(rng)
+        signer2, sinfo2 = pkts.make_signer(rng, 'ecdsa256', big)
+        do_interest(ctx, rng, gen.simple_name(rng, 1, 2), prm2, pexp2, b'q', 'ecdsa256', sinfo_tuple=(signer2, sinfo2), target=('key-locator', T_))
+        fb = b'F' * T_
+        do_data(ctx, rng, gen.simple_name(rng, 1, 2), MetaInfo(content_type=0, final_block_id=fb),
+                {'has_meta': True, 'content_type': 0, 'freshness': None, 'final_block': fb}, b'', 'none', target=('final-block', T_))
+        ctx.event('nested-length-sweep')
+
     # ---- random product
     for i in range(n):
         kind = rng.choice(kinds)
